@@ -28,18 +28,19 @@ Verdict(x) ==
    closed |-> ClosedDB(d),
    open |-> Open(d),
    vectors |-> VectorsExactDB(d),
-   wrappersFirst |-> WrappersFirstDB(d, x.first),
+   wrappersFirst |-> IF x.single = 1 THEN WrappersFirstDB(d, x.first) ELSE TRUE,
    links |-> LinksDB(d),
    backlinks |-> IF x.single = 1 THEN BackLinksDB(d) ELSE {},
    owners |-> OwnerViol(d),
-   names |-> IF x.single = 1 THEN BuilderNameViol(d) ELSE {},
+   names |-> BuilderNameViol(d),
+   sigs |-> SigViol(d),
    truth |-> IF "truth" \in DOMAIN x THEN {x.truth[j] : j \in TruthViol(d, x.truth)} ELSE {},
    dupTrueNames |-> DupTrueNames(d), dupUnique |-> DupUnique(d), dupWrapperNames |-> DupWName(d),
    union |-> IF "singles" \in DOMAIN x
                THEN UnionOKP(Project(d), {Project(DBOfJson(x.singles[j])) : j \in DOMAIN x.singles})
                ELSE TRUE]
 
-Holds(v) == /\ v.owners = {} /\ v.names = {} /\ v.truth = {}
+Holds(v) == /\ v.owners = {} /\ v.names = {} /\ v.sigs = {} /\ v.truth = {}
             /\ v.closed /\ v.vectors /\ v.wrappersFirst /\ v.links = {} /\ v.backlinks = {}
             /\ v.dupTrueNames = {} /\ v.dupUnique = {} /\ v.dupWrapperNames = {} /\ v.union
 
